@@ -17,7 +17,10 @@ META = {
                    "pattern are unchanged; O3 every returned shape has a component equal to 1 and none larger in modulus, and is "
                    "unchanged when the output matrix C is multiplied by a non-zero complex constant; O4 build_hank(Q Y, Q' Yref) == "
                    "(I (x) Q) H (I (x) Q')^T for the covariance methods with fully symbolic mixing matrices (permutations, sign flips and "
-                   "orthogonal mixing are special cases; the identity is bilinearity).",
+                   "orthogonal mixing are special cases; the identity is bilinearity); for 'dat' the same relation is decided on the stacked "
+                   "past/future matrix handed to the QR factorisation; O5 the real SSI_fast on H and k^2 H under a relational SVD contract "
+                   "(same singular vectors, singular values scaled by k^2 > 0): same list of models, identical state matrices, output "
+                   "matrices scaled by k.",
     "bounds": {"quick": {"model order": 2, "channels": "2", "Hankel": "l=2, r=1..2, br=1, 8 samples"},
                "thorough": {"model order": "2..3", "channels": "2..3", "Hankel": "l=2..3, br=1..2"}},
     "stubs": ["scipy.linalg.eig / np.linalg.eig: symbolic eigenvalues and eigenvectors shared by both runs", "np.log on complex: "
@@ -74,11 +77,14 @@ def jobs(tier):
     for l, r, br, nd in hk:
         for method in ("cov_mm", "cov_R"):
             out.append({"ob": "O4", "cfg": {"method": method, "l": l, "r": r, "br": br, "Ndat": nd}})
+        out.append({"ob": "O4", "cfg": {"method": "dat", "l": l, "r": r, "br": br, "Ndat": nd + 4}})
+    for l, br in (((1, 2), (2, 1)) if q else ((1, 2), (2, 1), (2, 2), (1, 3))):
+        out.append({"ob": "O5", "cfg": {"l": l, "br": br}})
     return out
 
 
 def run(job, tier):
-    return {"O1": run_time, "O3": run_norm, "O4": run_hank}[job["ob"]](job["cfg"], tier)
+    return {"O1": run_time, "O3": run_norm, "O4": run_hank, "O5": run_gain}[job["ob"]](job["cfg"], tier)
 
 
 def decide_each(tally, e, negs, on_sat, label, timeout_ms=15000):
@@ -268,8 +274,170 @@ def replay_norm(cfg, Cm=None):
     return False, "normalisation and gain invariance hold"
 
 
+class _QRrec:
+    """np.linalg for the data-driven Hankel: qr(mode='r') records the stacked past/future matrix it is handed and returns an
+    opaque triangular factor (the obligation is on the recorded input)"""
+
+    def __init__(self):
+        self.calls = []
+
+    def qr(self, A, mode="reduced"):
+        if mode != "r":
+            raise ShimGap("qr stub: only mode='r' is modelled")
+        A = np.asarray(A, dtype=object)
+        self.calls.append(A)
+        K = min(A.shape)
+        R = fresh(f"qrR{len(self.calls)}", (K, A.shape[1]))
+        return R
+
+    def __getattr__(self, k):
+        raise ShimGap(f"np.linalg.{k} not modelled")
+
+
+def run_hank_dat(cfg, tier):
+    """'dat': the matrix factorised for (Q Y, Q' Yref) is the one factorised for (Y, Yref) with its past columns mixed by
+    (I (x) Q') and its future columns by (I (x) Q) - the R-factor then changes by the same block mixing (paper step: LQ of a
+    row-mixed matrix; for orthogonal Q' the projection is unchanged)"""
+    from pyoma2.functions import ssi
+    rec = _QRrec()
+    W = World(overrides={"np": NPProxy(linalg=rec)})
+    tm = W.module(ssi)
+    tally = Tally(W, ["build_hank"])
+    ex = Explorer(timeout_ms=60000)
+    l, r, br, nd = cfg["l"], cfg["r"], cfg["br"], cfg["Ndat"]
+    st = {}
+
+    def body():
+        del rec.calls[:]
+        Y, Yref = fresh("Y", (l, nd)), fresh("R", (r, nd))
+        Q, Qr = fresh("Q", (l, l)), fresh("P", (r, r))
+        tm.build_hank(Y=Y, Yref=Yref, br=br, method="dat")
+        tm.build_hank(Y=Q @ Y, Yref=Qr @ Yref, br=br, method="dat")
+        st.update(Q=Q, Qr=Qr)
+        return None
+
+    for e, (kind, res) in ex.run_all(body):
+        if kind == "exc":
+            tally.decide(e, z3.BoolVal(True), on_sat=lambda m: {"inputs": {}, "reproduced": replay_hank(cfg)[0], "detail": f"raised {res!r}",
+                                                              "key": "build_hank:equivariance"})
+            continue
+        Q, Qr = st["Q"], st["Qr"]
+        why, bad = [], []
+        q = br + 1
+        npast, nfut = q * r, (br + 1) * l
+        if len(rec.calls) != 2 or rec.calls[0].shape != rec.calls[1].shape or rec.calls[0].shape[1] != npast + nfut:
+            why.append(f"qr inputs {[c.shape for c in rec.calls]}")
+        else:
+            A1, A2 = rec.calls
+            for t in range(A1.shape[0]):
+                for j in range(q):
+                    for b in range(r):
+                        want = sum((Qr[b, b2] * A1[t, j * r + b2] for b2 in range(r)), lift(0))
+                        bad.append(differs(A2[t, j * r + b], want))
+                for i in range(br + 1):
+                    for a in range(l):
+                        want = sum((Q[a, a2] * A1[t, npast + i * l + a2] for a2 in range(l)), lift(0))
+                        bad.append(differs(A2[t, npast + i * l + a], want))
+        neg = z3.BoolVal(True) if why else z3.Or(*bad)
+        tally.decide(e, neg, on_sat=lambda m: {"inputs": {}, "reproduced": replay_hank(cfg)[0], "detail": "; ".join(why) + replay_hank(cfg)[1],
+                                               "key": "build_hank:equivariance"}, label=f"dat equivariance l={l} r={r} br={br}")
+    return tally.result(ex)
+
+
+class _SqSV(SV):
+    """a singular value given as the square of a known positive root: sqrt() returns the root (no uninterpreted sqrt)"""
+
+    def __init__(self, root):
+        sq = root * root
+        SV.__init__(self, sq.v, sq.nan, d=sq.d, nn=True, dp=sq.dp)
+        self._root = root
+
+    def sqrt(self):
+        return self._root
+
+
+def run_gain(cfg, tier):
+    """gain covariance of the realisation step: the real SSI_fast on H and on g^2 H (same singular vectors, singular values
+    scaled by k^2 = g^2 > 0, prescribed through the SVD stub) returns the same number of models with identical state
+    matrices and output matrices scaled by k"""
+    from props.c01 import LA, make_world
+    from pyoma2.functions import ssi
+    la = LA()
+    W = make_world(la)
+    tm = W.module(ssi)
+    tally = Tally(W, ["SSI_fast"])
+    ex = Explorer(timeout_ms=60000)
+    l, br = cfg["l"], cfg["br"]
+    rows = (br + 1) * l
+    st = {}
+
+    def body():
+        e = Explorer.cur
+        U = fresh("U", (rows, 2))
+        sg = [fresh("sg0", nn=True), fresh("sg1", nn=True)]
+        k = fresh("k", nn=True)
+        e.assume(z3.And(sg[0].v >= sg[1].v, sg[1].v > 0, k.v > 0))
+        S1 = SymArray(np.array([_SqSV(x) for x in sg], dtype=object))
+        S2 = SymArray(np.array([_SqSV(x * k) for x in sg], dtype=object))
+        la.svd_out[:] = [(U, S1), (U, S2)]
+        H = fresh("H", (rows, rows))
+        r1 = tm.SSI_fast(H, br, 2, step=1)
+        r2 = tm.SSI_fast(H * (k * k), br, 2, step=1)
+        st.update(k=k)
+        return r1, r2
+
+    for e, (kind, res) in ex.run_all(body):
+        if kind == "exc":
+            tally.decide(e, z3.BoolVal(True), on_sat=lambda m: cex_gain(cfg, f"raised {type(res).__name__}: {res}"), with_side=False)
+            continue
+        (_, A1, C1, *_), (_, A2, C2, *_) = res
+        k = st["k"]
+        why, bad = [], []
+        sh1 = [np.shape(x) for x in A1] + [np.shape(x) for x in C1]
+        sh2 = [np.shape(x) for x in A2] + [np.shape(x) for x in C2]
+        if sh1 != sh2:
+            why.append(f"model lists differ with the gain: {sh1} vs {sh2}")
+        else:
+            for X1, X2 in zip(A1, A2):
+                bad += [differs(X2[ix], X1[ix]) for ix in np.ndindex(np.shape(X1))]
+            for X1, X2 in zip(C1, C2):
+                bad += [differs(X2[ix], X1[ix] * k) for ix in np.ndindex(np.shape(X1))]
+        neg = z3.BoolVal(True) if why else z3.Or(*bad)
+        tally.decide(e, neg, on_sat=lambda m, why=tuple(why): cex_gain(cfg, "; ".join(why) or None), with_side=not why,
+                     label=f"SSI_fast gain covariance l={l} br={br}")
+    return tally.result(ex)
+
+
+def cex_gain(cfg, note):
+    v, d = replay_gain(cfg)
+    return {"inputs": {}, "reproduced": v, "detail": (note + " | " if note else "") + d, "key": "SSI_fast:gain"}
+
+
+def replay_gain(cfg):
+    """real SSI_fast on a full-rank Hankel-shaped matrix and on 2^-60 times it (exact scaling): same model list, same eigenvalues"""
+    from pyoma2.functions import ssi
+    l, br = max(cfg["l"], 2), max(cfg["br"], 3)
+    rng = np.random.RandomState(4)
+    H = rng.randn((br + 1) * l, (br + 1) * l)
+    om = br * l
+    for g2 in (2.0 ** -60, 2.0 ** 40):
+        try:
+            _, A1, C1, *_ = ssi.SSI_fast(H, br, om)
+            _, A2, C2, *_ = ssi.SSI_fast(H * g2, br, om)
+        except Exception as e:  # noqa: BLE001
+            return True, f"SSI_fast raised {type(e).__name__}: {e}"
+        if [np.shape(x) for x in A1] != [np.shape(x) for x in A2] or [np.shape(x) for x in C1] != [np.shape(x) for x in C2]:
+            return True, f"gain^2 = {g2:g}: the lists of identified models differ in shape ({[np.shape(x)[0] for x in A1]} vs {[np.shape(x)[0] for x in A2]})"
+        for i, (X1, X2) in enumerate(zip(A1, A2)):
+            if X1.size and not np.allclose(np.sort_complex(np.linalg.eigvals(X1)), np.sort_complex(np.linalg.eigvals(X2)), rtol=1e-6, atol=1e-9):
+                return True, f"gain^2 = {g2:g}: poles of model order {i} change with the gain"
+    return False, "model lists and poles independent of the gain"
+
+
 def run_hank(cfg, tier):
     from pyoma2.functions import ssi
+    if cfg["method"] == "dat":
+        return run_hank_dat(cfg, tier)
     W = World()
     tm = W.module(ssi)
     tally = Tally(W, ["build_hank"])
@@ -314,7 +482,10 @@ def replay_hank(cfg):
     H1, _ = ssi.build_hank(Y, Yref, br, method)
     H2, _ = ssi.build_hank(Q @ Y, Qr @ Yref, br, method)
     want = np.kron(np.eye(br + 1), Q) @ H1 @ np.kron(np.eye(br + 1), Qr).T
-    if not np.allclose(H2, want, rtol=1e-9, atol=1e-12):
+    if method == "dat":
+        # the triangular factor is fixed up to an orthogonal right factor: compare Gram matrices
+        H2, want = H2 @ H2.T, np.kron(np.eye(br + 1), Q) @ H1 @ H1.T @ np.kron(np.eye(br + 1), Q).T
+    if H2.shape != want.shape or not np.allclose(H2, want, rtol=1e-8, atol=1e-10):
         return True, f"build_hank({method}) is not equivariant under orthogonal channel mixing"
     return False, "equivariant"
 
@@ -325,4 +496,6 @@ def replay(ob, cfg, inputs):
         return v, d
     if ob == "O3":
         return replay_norm(cfg, inputs.get("C") if isinstance(inputs, dict) else None)
+    if ob == "O5":
+        return replay_gain(cfg)
     return replay_hank(cfg)
